@@ -61,7 +61,9 @@ META = {
 RULE = ('atomic case = (pre-state batches, batch under test, fault '
         'positions); lock case = (8-bit failure pattern, failure kinds, '
         'generated history of 10 batches, conservative or full operation '
-        'mix); threshold case = (history, >=100 consecutive failures); '
+        'mix; two lock ordinals and threshold ordinal 0 are scripted '
+        'two-operation histories so that first witnesses are minimal); '
+        'threshold case = (history, >=100 consecutive failures); '
         'distinct by the descriptor lists; non-trivial when the batch '
         'under test executes >= 3 statements on >= 2 tables (atomic) or at '
         'least one public write really failed and a later one succeeded '
@@ -82,7 +84,7 @@ MIN = {
     'quick': {'lock_cases': 700, 'lock_convergence_verdicts': 650,
               'pub_fail_xlock': 700, 'pub_fail_slock': 700,
               'pub_fail_injected': 700, 'atomic_batches': 130,
-              'fault_positions_raise': 900, 'fault_positions_kill': 250,
+              'fault_positions_raise': 900, 'fault_positions_kill': 170,
               'threshold_cases': 12, 'threshold_recoveries': 12,
               'sync_checks_no_failure': 500,
               'batch_changed_pri': 120},
@@ -99,7 +101,7 @@ NPAT = 256
 # 10 atomicity cases, 48 lock-pattern cases (so 16 cycles = 3 x 256 patterns)
 CYCLE = 59
 CYCLES = {'quick': 16, 'thorough': 96}
-CASE_TIMEOUT = 180
+CASE_TIMEOUT = 600
 
 
 def ncases(tier):
@@ -443,9 +445,9 @@ def _run_atomic(ctx, i, rng, w):
     raise_pos = positions if (thorough or rng.random() < 0.7) else \
         sorted(set(rng.sample(positions, min(4, npos)) + [1, npos]))
     kill_pos = positions + ['after'] if thorough else \
-        sorted(set(rng.sample(positions, min(2, npos)) + (
-            [npos] if rng.random() < 0.3 else []))) + (
-            ['after'] if rng.random() < 0.3 else [])
+        sorted(set(rng.sample(positions, 1) + (
+            [npos] if rng.random() < 0.4 else []))) + (
+            ['after'] if rng.random() < 0.25 else [])
 
     # -- OperationalError at position k --------------------------------
     for k in raise_pos:
